@@ -383,6 +383,11 @@ func (ex *Exec) applyContract(st *State, fr *Frame, x *ssa.Call, c *Contract, ke
 	st.assume(Not(Or(anyFail...)))
 	// modifies: havoc
 	for _, m := range c.Modifies {
+		if ex.usesHeapRefs && !strings.HasPrefix(strings.TrimSpace(m.Src), "ghost(") {
+			// the functions of heap references (fields, abstraction functions) are state-independent symbols: only
+			// sound while nothing modelled through them changes
+			ex.reject("a function over the read-only heap (heapobj) calls %s, whose contract modifies %s", short, m.Src)
+		}
 		env.havoc(m.Expr)
 	}
 	if c.Arith {
